@@ -6,6 +6,7 @@ import (
 	"net"
 	"strings"
 	"testing"
+	"time"
 
 	kcp "github.com/xtaci/kcp-go/v5"
 	"pgregory.net/rapid"
@@ -328,4 +329,107 @@ func TestC19OneSidedFEC(t *testing.T) {
 			rec.Sample(dd)
 		}
 	})
+}
+
+// TestC19HandlerReentrancy: an OOB handler may call the session's own OOB API
+// from inside the callback - replace itself ("token first, then the steady
+// handler"), unregister, ask for the size limit, answer with SendOOB. The
+// callback runs on the goroutine that feeds the session (for accepted sessions:
+// the listener's, which feeds every session), so a handler that cannot return
+// stalls OOB delivery and the reliable stream alike. Real time, real goroutines;
+// the verdict is "the second message reached the new handler and the stream
+// still flows within 15 s" on an in-memory network with immediate delivery.
+func TestC19HandlerReentrancy(t *testing.T) {
+	rec := hx.NewRecorder(t)
+	kcp.SystemTimedSched = realSched
+	n := 0
+	for _, cipher := range []string{"null", "aes-128", "aes-128-gcm"} {
+		for _, listener := range []bool{false, true} {
+			for _, inner := range []string{"replace", "unregister_then_register", "size_and_send"} {
+				n++
+				nw := sim.NewNet()
+				nw.Direct = true
+				la := &net.UDPAddr{IP: net.IPv4(10, 0, 0, 1), Port: 1}
+				ca := &net.UDPAddr{IP: net.IPv4(10, 0, 0, 2), Port: 2}
+				lc, cc := nw.Listen(la), nw.Listen(ca)
+				key := make([]byte, keyLenFor(cipher))
+				blk := func() kcp.BlockCrypt { b, _ := sim.NewBlockCrypt(cipher, key); return b }
+				cli, _ := kcp.NewConn3(42, la, blk(), 2, 1, cc)
+				var srv *kcp.UDPSession
+				var L *kcp.Listener
+				if listener {
+					L, _ = kcp.ServeConn(blk(), 2, 1, lc)
+					cli.Write([]byte("hi"))
+					L.SetReadDeadline(time.Now().Add(10 * time.Second))
+					var err error
+					if srv, err = L.AcceptKCP(); err != nil {
+						t.Fatalf("setup: accept: %v", err)
+					}
+				} else {
+					srv, _ = kcp.NewConn3(42, ca, blk(), 2, 1, lc)
+				}
+				for _, x := range []*kcp.UDPSession{cli, srv} {
+					x.SetNoDelay(1, 10, 2, 1)
+				}
+				got := make(chan string, 64)
+				steady := func(b []byte) { got <- "steady:" + string(b) }
+				first := func(b []byte) {
+					got <- "first:" + string(b)
+					switch inner {
+					case "replace":
+						srv.SetOOBHandler(steady)
+					case "unregister_then_register":
+						srv.SetOOBHandler(nil)
+						srv.SetOOBHandler(steady)
+					default:
+						srv.GetOOBMaxSize()
+						srv.SendOOB([]byte("echo"))
+						srv.SetOOBHandler(steady)
+					}
+				}
+				srv.SetOOBHandler(first)
+				cli.SetOOBHandler(func(b []byte) { got <- "client:" + string(b) })
+				wait := func(want string) bool {
+					deadline := time.After(15 * time.Second)
+					for {
+						select {
+						case g := <-got:
+							if g == want {
+								return true
+							}
+						case <-deadline:
+							return false
+						}
+					}
+				}
+				what := fmt.Sprintf("cipher %s, accepted session=%v, the handler calls %s from inside the callback", cipher, listener, inner)
+				cli.SendOOB([]byte("one"))
+				if !wait("first:one") {
+					t.Fatalf("C19 (%s): the first OOB message never reached the handler", what)
+				}
+				cli.SendOOB([]byte("two"))
+				if !wait("steady:two") {
+					hx.Fail(t, map[string]any{"cipher": cipher, "listener": listener, "inner": inner}, "C19 (%s): the second OOB message did not reach the handler installed from inside the first callback within 15 s: the goroutine that feeds the session is stuck", what)
+				}
+				cli.Write([]byte("stream data"))
+				srv.SetReadDeadline(time.Now().Add(15 * time.Second))
+				buf := make([]byte, 64)
+				if listener {
+					srv.Read(buf) // the "hi" of the setup
+				}
+				if k, err := srv.Read(buf); err != nil || string(buf[:k]) != "stream data" {
+					hx.Fail(t, map[string]any{"cipher": cipher, "listener": listener, "inner": inner}, "C19 (%s): the reliable stream stopped after the handler swap: Read returned %q, %v", what, buf[:k], err)
+				}
+				cli.Close()
+				srv.Close()
+				if L != nil {
+					L.Close()
+				}
+				lc.Close()
+				cc.Close()
+				rec.Case(uint64(n), true, "handler_calls_its_own_oob_api_"+inner)
+			}
+		}
+	}
+	rec.Sample(map[string]any{"inner_calls": []string{"SetOOBHandler(next)", "SetOOBHandler(nil)+SetOOBHandler(next)", "GetOOBMaxSize+SendOOB+SetOOBHandler(next)"}, "sessions": []string{"dialled", "accepted"}})
 }
